@@ -35,7 +35,7 @@ type c10KV struct {
 }
 
 type c10Op struct {
-	Op string  `json:"op"` // put del batch flush collapse reopen get getall
+	Op string  `json:"op"` // put del batch flush collapse reopen get getall proofall
 	K  string  `json:"k,omitempty"`
 	V  string  `json:"v,omitempty"`
 	KV []c10KV `json:"kv,omitempty"`
@@ -181,6 +181,10 @@ func c10Exec(in c10Input, checkFresh bool) (*c10State, string) {
 			if n := s.readAll(c10Keys(in.Ops)); n != "" && rnote == "" {
 				rnote = fmt.Sprintf("op %d: %s", i, n)
 			}
+		case "proofall": // GetProof + VerifyProof for every stored key
+			if n := s.proofAll(); n != "" && rnote == "" {
+				rnote = fmt.Sprintf("op %d: %s", i, n)
+			}
 		case "flush":
 			s.flush()
 			fresh(fmt.Sprintf("flush at op %d", i))
@@ -235,6 +239,34 @@ func (s *c10State) readOne(k []byte) string {
 	}
 	if !ok && err == nil {
 		return fmt.Sprintf("Get(%x) = %x, the key is not stored", k, v)
+	}
+	return ""
+}
+
+// proofAll: the proof of every stored key must exist and verify to the stored value under the current root
+func (s *c10State) proofAll() string {
+	keys := make([]string, 0, len(s.content))
+	for k := range s.content {
+		keys = append(keys, k)
+	}
+	sort.Strings(keys)
+	root := s.tr.StateRoot()
+	for _, k := range keys {
+		var pr [][]byte
+		var err error
+		if p := catch(func() { pr, err = s.tr.GetProof([]byte(k)) }); p != "" {
+			return fmt.Sprintf("GetProof(%x) panicked: %s", k, p)
+		}
+		if err != nil {
+			return fmt.Sprintf("GetProof(%x) of a stored key failed: %v", k, err)
+		}
+		v, ok, note := c10Verify(root.BytesBE(), []byte(k), pr)
+		if note != "" {
+			return note
+		}
+		if !ok || !bytes.Equal(v, s.content[k]) {
+			return fmt.Sprintf("VerifyProof(root, %x, GetProof(%x)) = (%x, %v), stored value is %x", k, k, v, ok, s.content[k])
+		}
 	}
 	return ""
 }
@@ -553,10 +585,20 @@ func c10Diverges(content map[string][]byte, prefix, start []byte) bool {
 
 // ---- one case ----
 
+// c10Run: one case; a panic of the implementation anywhere in it is a violation, not a crash of the harness
 func c10Run(co *caseOut, kind string, in c10Input) {
+	if p := catch(func() { c10RunCase(co, kind, in) }); p != "" {
+		co.violation(kind, "panic: "+p, in, nil)
+	}
+}
+
+func c10RunCase(co *caseOut, kind string, in c10Input) {
 	q := in.Q
 	if kind == "reads_root" {
 		kind = "reads"
+	}
+	if kind == "modes_root" {
+		kind = "modes"
 	}
 	if kind == "reads" {
 		n, _ := co.extra["x_read_histories"].(int)
@@ -590,7 +632,7 @@ func c10Run(co *caseOut, kind string, in c10Input) {
 
 	var s *c10State
 	var note string
-	if p := catch(func() { s, note = c10Exec(in, kind == "root" || kind == "fresh_root" || kind == "reads") }); p != "" {
+	if p := catch(func() { s, note = c10Exec(in, kind == "root" || kind == "fresh_root" || kind == "reads" || kind == "modes") }); p != "" {
 		co.violation(kind, "panic while executing the history: "+p, in, nil)
 		return
 	}
@@ -598,12 +640,17 @@ func c10Run(co *caseOut, kind string, in c10Input) {
 		if kind == "reads" {
 			// a history with reads in the middle: kept apart from the plain history-independence check
 			co.violation("reads_root", note, in, nil)
+		} else if kind == "modes" {
+			co.violation("modes_root", note, in, nil)
 		} else {
 			co.violation("fresh_root", note, in, nil)
 		}
 	}
 	if s.readNote != "" && (kind == "root" || kind == "reads") {
 		co.violation("reads", s.readNote, in, nil)
+	}
+	if s.readNote != "" && kind == "modes" {
+		co.violation("modes", fmt.Sprintf("storage mode %d: %s", in.Mode, s.readNote), in, nil)
 	}
 	if kind == "fresh_root" || kind == "reads" {
 		return
@@ -613,6 +660,37 @@ func c10Run(co *caseOut, kind string, in c10Input) {
 	big := nkeys >= 2
 	modeTag := fmt.Sprintf("m%d", in.Mode)
 	switch kind {
+	case "modes":
+		// flush, forget everything in memory, re-read every key the history mentions from the stored root
+		var reads []string
+		impl := map[string]any{}
+		p := catch(func() {
+			s.flush()
+			if _, err := s.st.Persist(); err != nil {
+				panic(err)
+			}
+			tr := mpt.NewTrie(nil, s.mode, s.st)
+			if r := s.tr.StateRoot(); !r.Equals(util.Uint256{}) {
+				tr = mpt.NewTrie(mpt.NewHashNode(r), s.mode, s.st)
+			}
+			for _, k := range c10Keys(in.Ops) {
+				if len(k) > mpt.MaxKeyLength {
+					continue
+				}
+				v, err := tr.Get(k)
+				reads = append(reads, fmt.Sprintf("(%s, %s)", coqBytes(k), coqOpt(c10Val(v), err == nil)))
+				if err == nil {
+					impl[hx(k)] = hx(v)
+				} else {
+					impl[hx(k)] = nil
+				}
+			}
+		})
+		if p != "" {
+			co.violation(kind, "panic while re-reading the keys from the stored root: "+p, in, nil)
+			return
+		}
+		co.add(kind, fmt.Sprintf("%s/keys%d", modeTag, min(nkeys, 8)), big, in, impl, fmt.Sprintf("CGets %s %s", ops, coqList(reads)))
 	case "root":
 		r := c10Root(s.tr)
 		errs := make([]string, len(s.errs))
@@ -999,6 +1077,126 @@ func c10SiblingHistory(r *rng, keys [][]byte) []c10Op {
 	return ops
 }
 
+// several flush epochs in which node hashes die and are re-created: the same pair put back, the same value
+// (and the same key suffix + value: a shared extension+leaf) under another key, delete-then-recreate across
+// flushes; collapse/reopen in between and at the end, then re-reads, proofs and further updates
+func c10EpochHistory(r *rng, keys [][]byte) []c10Op {
+	p1, p2 := byte(r.intn(8))<<4|byte(r.intn(16)), byte(8+r.intn(8))<<4|byte(r.intn(16))
+	s1, s2 := r.bytes(1+r.intn(2)), r.bytes(1+r.intn(2))
+	pool := [][]byte{append([]byte{p1}, s1...), append([]byte{p2}, s1...), append([]byte{p1}, s2...), append([]byte{p2}, s2...), {p1}, pick(r, keys), pick(r, keys)}
+	vals := [][]byte{{1}, {2}, {1}, {}, {7, 7}}
+	type pair struct{ k, v []byte }
+	var grave []pair
+	present := map[string][]byte{}
+	var ops []c10Op
+	put := func(k, v []byte) {
+		ops = append(ops, c10Op{Op: "put", K: hx(k), V: hx(v)})
+		present[string(k)] = v
+	}
+	del := func(k []byte) {
+		if v, ok := present[string(k)]; ok {
+			grave = append(grave, pair{k, v})
+		}
+		ops = append(ops, c10Op{Op: "del", K: hx(k)})
+		delete(present, string(k))
+	}
+	somePresent := func() []byte {
+		var ps []string
+		for k := range present {
+			ps = append(ps, k)
+		}
+		sort.Strings(ps)
+		if len(ps) == 0 {
+			return pick(r, pool)
+		}
+		return []byte(pick(r, ps))
+	}
+	step := func() {
+		switch r.intn(8) {
+		case 0, 1:
+			put(pick(r, pool), pick(r, vals))
+		case 2, 3:
+			del(somePresent())
+		case 4:
+			if len(grave) > 0 { // the same pair again
+				g := pick(r, grave)
+				put(g.k, g.v)
+			}
+		case 5:
+			if len(grave) > 0 { // the value of a dead pair under another key
+				put(pick(r, pool), pick(r, grave).v)
+			}
+		case 6:
+			k := somePresent() // overwrite with the same value: nothing must change
+			if v, ok := present[string(k)]; ok {
+				put(k, v)
+			}
+		case 7:
+			var kv []c10KV
+			used := map[string]bool{}
+			for i := 0; i < 2+r.intn(3); i++ {
+				k := pick(r, pool)
+				if used[string(k)] {
+					continue
+				}
+				used[string(k)] = true
+				if r.chance(40) {
+					if v, ok := present[string(k)]; ok {
+						grave = append(grave, pair{k, v})
+					}
+					kv = append(kv, c10KV{K: hx(k)})
+					delete(present, string(k))
+				} else {
+					v := pick(r, vals)
+					hv := hx(v)
+					kv = append(kv, c10KV{K: hx(k), V: &hv})
+					present[string(k)] = v
+				}
+			}
+			ops = append(ops, c10Op{Op: "batch", KV: kv})
+		}
+	}
+	reload := func() {
+		ops = append(ops, pick(r, []c10Op{{Op: "reopen"}, {Op: "collapse", D: 0}, {Op: "collapse", D: 1}, {Op: "reopen"}}))
+	}
+	for e := 0; e < 3+r.intn(4); e++ {
+		for i := 0; i < 1+r.intn(4); i++ {
+			step()
+		}
+		ops = append(ops, c10Op{Op: "flush"})
+		if r.chance(35) {
+			reload()
+			if r.chance(60) {
+				ops = append(ops, c10Op{Op: "getall"}, c10Op{Op: "proofall"})
+			}
+		}
+	}
+	reload()
+	ops = append(ops, c10Op{Op: "getall"}, c10Op{Op: "proofall"})
+	for i := 0; i < 2+r.intn(4); i++ {
+		step()
+	}
+	ops = append(ops, c10Op{Op: "flush"}, c10Op{Op: "reopen"}, c10Op{Op: "getall"}, c10Op{Op: "proofall"})
+	return ops
+}
+
+// c10ModeRuns: the history in the reference-counting storage modes (and ModeAll), with reload, re-reads, proofs
+// and further updates at the end
+func c10ModeRuns(co *caseOut, r *rng, keys [][]byte, base []c10Op) {
+	tail := []c10Op{{Op: "flush"}, pick(r, []c10Op{{Op: "reopen"}, {Op: "collapse", D: 0}}), {Op: "getall"}, {Op: "proofall"}}
+	tail = append(tail, c10History(r, keys, 1+r.intn(4), false)...)
+	tail = append(tail, c10Op{Op: "flush"}, c10Op{Op: "reopen"}, c10Op{Op: "getall"}, c10Op{Op: "proofall"})
+	general := append(append([]c10Op{}, base...), tail...)
+	epochs := c10EpochHistory(r, keys)
+	for _, m := range []mpt.TrieMode{mpt.ModeLatest, mpt.ModeGC} {
+		c10Run(co, "modes", c10Input{Mode: int(m), Ops: epochs})
+		c10Run(co, "modes", c10Input{Mode: int(m), Ops: general})
+	}
+	if r.chance(25) {
+		c10Run(co, "modes", c10Input{Mode: int(mpt.ModeAll), Ops: epochs})
+	}
+}
+
 // start points around the keys below a prefix
 func c10Starts(r *rng, keys [][]byte, prefix []byte) [][]byte {
 	var rels [][]byte
@@ -1090,6 +1288,7 @@ func c10Generate(co *caseOut, r *rng, h int, tier string) {
 	sort.Slice(present, func(i, j int) bool { return bytes.Compare(present[i], present[j]) < 0 })
 
 	run("root", c10Query{})
+	c10ModeRuns(co, r, keys, in.Ops)
 	if h%4 == 0 {
 		run("find_dirty", c10Query{Prefix: hx(pick(r, keys)[:0])})
 	}
@@ -1248,6 +1447,7 @@ func runC10(args []string) error {
 	fs.Parse(args)
 	co := newCaseOut(cf.out, "Harness.C10", "N",
 		"operation histories (Put/Delete/PutBatch/Flush/Collapse/reopen, modes All/Latest/GC) over colliding key sets "+
+			"(every history also in ModeLatest and ModeGC with a block index per Flush, several flush epochs with node hashes that die and are re-created, then reload from the stored root, all keys re-read, GetProof+VerifyProof of all stored keys, further updates) "+
 			"(prefixes of each other, shared nibble prefixes, nibbles 0 and 15, 68-byte keys, equal and empty values), each with one observation: "+
 			"StateRoot, Get, Find, TrieStore.Seek (both directions, start points around the keys), GetProof, VerifyProof on genuine and tampered proofs; "+
 			"hand-built node encodings for the decoder; SHA-256 vectors. A case is non-trivial when the final content has at least 2 keys "+
